@@ -110,11 +110,16 @@ Proof. exact files_copied_beside_spec. Qed.
 Print Assumptions C17_files_copied_beside.
 
 (* ---- copy_subdir -------------------------------------------------------------------------- *)
-Theorem C17_copy_subdir_copied : forall root loc st item es sub,
-  dir_exists (loc ++ [item]) st = false ->
-  dir_at loc root = Some es -> find_entry item es = Some (Dir item sub) ->
-  forall p, In p (all_files (Dir item sub)) -> has (loc ++ p) (copy_item root loc st item).
-Proof. exact copy_item_copies. Qed.
+(* over a whole run: every directory that the copy_subdir list of a written index.md names is
+   completely present beside that page at the end (whatever else was written or copied before:
+   copytree refuses an existing destination, but then the content is there already) *)
+Theorem C17_copy_subdir_copied : forall proj root nd n,
+  wf_tree (Dir [] root) = true -> page_tree proj root = RNode nd ->
+  In n (preorder nd) -> n_file n = idx ->
+  forall item es sub, In item (n_copy n) -> dir_at (n_loc n) root = Some es ->
+    find_entry item es = Some (Dir item sub) ->
+    forall p, In p (all_files (Dir item sub)) -> has (n_loc n ++ p) (writeout root (RNode nd)).
+Proof. exact copy_subdir_copied_run. Qed.
 Print Assumptions C17_copy_subdir_copied.
 
 (* what the code does: the list consulted is the one of the parent *node* (pc) *)
